@@ -74,6 +74,71 @@ def run(tier):
                 ctx.violation({"layer": "sched", "cases": [rep_cases[k]], "implementation_answer": rio[k][:1500], "expected_from_original_iteration": rep_expect[k][:1500],
                                "why": "the seed reported for an iteration, given back with one iteration, did not reproduce that iteration's decisions and data draws"})
     ctx.log("iteration-seed reproduction: %d iterations re-run from their reported seed" % len(rep_cases))
+    # programs on the real runtime: same seed twice (random and URW), and every random iteration re-run from its reported seed
+    import gen_prog
+    pc = []
+    for i in range(250 if tier == "quick" else 3000):
+        objs, bodies = gen_prog.gen_program(rng, max_bodies=4, max_ops=rng.choice([3, 5]), features=gen_prog.ALL)
+        ms = rng.choice(["none", "none", "fail:%d" % rng.randint(4, 25), "cont:%d" % rng.randint(4, 25)])
+        k = rng.random()
+        if k < 0.35:
+            pc.append("twice random %d 0 %d %s %s %s" % (rng.getrandbits(64), rng.choice([1, 3, 6]), ms, objs, bodies))
+        elif k < 0.7:
+            pc.append("twice urw %d 0 %d %s %s %s" % (rng.getrandbits(64), rng.choice([2, 4, 8]), ms, objs, bodies))
+        else:
+            pc.append("reseed %d %d %s %s %s" % (rng.getrandbits(64), rng.choice([2, 4, 7]), ms, objs, bodies))
+    # directed: three and four generations of tasks with uneven lengths (URW aggregates event counts along the
+    # spawn tree after its estimation run; the weights, hence the picks, must not depend on anything but the seed)
+    deep = ["sp1;yd;yd;jn0|sp2;a0.add.1;a0.add.1;a0.add.1;jn0|a0.add.1;a0.add.1;a0.add.1;a0.add.1;a0.add.1;a0.add.1",
+            "sp1;a0.ld;jn0|sp2;sp3;a0.add.1;jn0;jn1|a0.add.1;a0.add.1;a0.add.1;a0.add.1|yd;a0.add.2",
+            "sp1;sp3;jn0;jn1|sp2;yd;jn0|sp3;a0.add.1;a0.add.1;a0.add.1;jn0|a0.add.1;yd;a0.add.1;yd;a0.add.1",
+            "sp1;a0.add.1|sp2;a0.add.1;a0.add.1|sp3;a0.add.1;a0.add.1;a0.add.1|a0.add.1;a0.add.1;a0.add.1;a0.add.1;yd;yd"]
+    for i in range(24 if tier == "quick" else 200):
+        pc.append("twice urw %d 0 %d none a0 %s" % (rng.getrandbits(64), rng.choice([10, 16]), deep[i % len(deep)]))
+        if i % 3 == 0:
+            pc.append("twice random %d 0 8 none a0 %s" % (rng.getrandbits(64), deep[i % len(deep)]))
+    po = ctx.run_impl("prog", pc)
+    ctx.evaluations += len(pc)
+    nsame = 0
+    for c, o in zip(pc, po):
+        if o.startswith("SAME"):
+            nsame += 1
+            if "multi=0" not in o:
+                ctx.note_nontrivial(c)
+        else:
+            nfail += 1
+            if nfail <= 6:
+                ctx.violation({"layer": "prog", "cases": [c], "implementation_answer": o[:1500],
+                               "why": ("two runs of the same body from the same seed performed different executions" if c.startswith("twice") else
+                                       "the seed reported for an iteration, given back with one iteration, did not reproduce that iteration")})
+    ctx.log("programs: %d same-seed / reseed cases on the crate, %d consistent" % (len(pc), nsame))
+    ctx.sample({"case": pc[0][:200], "impl": po[0][:200]})
+    # uniformity witness: a long run of next_task on lists of length n from one fixed seed; a chi-square far beyond
+    # anything a uniform choice produces (threshold 80 for at most 7 degrees of freedom: p < 1e-13) is reported with the
+    # frequencies as the failing input.  (The theorem C10_choose_uniform is what establishes uniformity; this only turns a
+    # broken correspondence into something a reader can replay.)
+    ucases = []
+    for nn in (2, 3, 5, 6, 7, 8):
+        ucases.append("random %d 1 %s" % (12345 + nn, ",".join(["E"] + ["T%d" % nn] * 6000)))
+    uo = ctx.run_impl("sched", ucases)
+    ctx.evaluations += len(ucases)
+    for c, o in zip(ucases, uo):
+        nn = int(c.split("T")[1].split(",")[0])
+        picks = [a for a in o.split(",") if a.startswith("t")]
+        cnt = [0] * nn
+        for a in picks:
+            v = int(a[1:])
+            if v < nn:
+                cnt[v] += 1
+        tot = sum(cnt)
+        if tot:
+            exp = tot / nn
+            chi2 = sum((x - exp) ** 2 / exp for x in cnt)
+            ctx.cov.setdefault("uniformity_chi2", {})[str(nn)] = round(chi2, 2)
+            if chi2 > 80:
+                nfail += 1
+                ctx.violation({"layer": "sched", "cases": [c[:200] + "..."], "frequencies": cnt, "chi2": chi2,
+                               "why": "RandomScheduler::next_task over %d offered tasks is far from uniform (6000 picks from seed %s)" % (nn, c.split(" ")[1])})
     # supporting measurement (not proof): frequency of chosen positions
     freq = {}
     for k, c in enumerate(cases):
